@@ -84,7 +84,7 @@ def gen_payload(rng, n):
     style = rng.random()
     if style < 0.45:
         salt = rng.randrange(256)
-        return bytes((salt + 37 * i) & 0xFF for i in range(n))          # every position distinct (n <= 70 < 256)
+        return bytes((salt + 37 * i + (i >> 8)) & 0xFF for i in range(n))   # every position distinct within 256 bytes
     if style < 0.75:
         return bytes(rng.randrange(256) for _ in range(n))
     if style < 0.85:
@@ -97,11 +97,13 @@ def gen_payload(rng, n):
     return inner[:n] if n else b""
 
 
-def gen_packet(rng):
+def gen_packet(rng, tier="quick"):
     """returns (kind, bytes)"""
     r = rng.random()
     pid = rng.choice(U.DATA_PIDS)
     n = rng.choice(LENGTHS) if rng.random() < 0.7 else rng.randint(0, 70)
+    if tier == "thorough" and rng.random() < 0.02:
+        n = rng.choice([511, 512, 513, 1023, 1024])                  # high-speed bulk / isochronous sizes
     payload = gen_payload(rng, n)
     good = bytearray(U.data(pid, payload))
     if r < 0.30:
@@ -162,7 +164,7 @@ def gen_packet(rng):
         return "extended", bytes(good) + extra
     if r < 0.77:
         # payload' = payload + CRC(payload); packet = PID payload' CRC(payload'): valid, and its prefix is a valid packet too
-        inner = payload[:min(n, 60)]
+        inner = payload[:min(n, 60)] if n <= 70 else payload
         p2 = inner + usb2_crc16(inner)
         return "nested", U.data(pid, p2)
     if r < 0.87:
@@ -290,7 +292,7 @@ def run_case(rng, tier, res):
     toggle_sig = None
     if not in_device:
         top, dut, utmi = build_standalone() if mode == "standalone_fs" else build_wrapped_hs()
-        b = Bench(top, domain="usb", freq=60e6, max_cycles=40000)
+        b = Bench(top, domain="usb", freq=60e6, max_cycles=120000)
         host = UTMIHost(b, utmi, rng, timing="fs60", ready_profile="always")
         s_valid, s_next, s_payload = dut.stream.valid, dut.stream.next, dut.stream.payload
         complete, mismatch, ready = dut.packet_complete, dut.crc_mismatch, dut.ready_for_response
@@ -300,7 +302,7 @@ def run_case(rng, tier, res):
         from luna.gateware.usb.usb2.packet import USBDataPacketReceiver
         dev, utmi, spy = build_device(mode[-4:])
         with Registry(USBDataPacketReceiver) as reg:
-            b = Bench(dev, domain="usb", freq=60e6, max_cycles=60000)
+            b = Bench(dev, domain="usb", freq=60e6, max_cycles=120000)
         rp = rng.choice(["always", "always", ("random", 0.6), ("every", 2)])
         host = UTMIHost(b, utmi, rng, timing=mode[-4:], ready_profile=rp)
         i = spy.interface
@@ -408,7 +410,7 @@ def run_case(rng, tier, res):
         yield from host.idle(rng.randint(3, 8))
         npk = rng.randint(30, 70)
         for k in range(npk):
-            kind, pkt = gen_packet(rng)
+            kind, pkt = gen_packet(rng, tier)
             n = len(pkt)
             prof = gap_profile if gap_profile != "mixed" else rng.choice(["none", "random", "fixed", "onestall"])
             gaps = gen_gaps(rng, n, prof)
